@@ -23,7 +23,7 @@ class AnchorLost(Exception):
 LOG_MACROS = {"trace", "debug", "info", "warn", "error", "crit"}
 ASSERT1 = {"debug_assert", "assert"}
 ASSERT2 = {"debug_assert_eq": "==", "assert_eq": "==", "debug_assert_ne": "!=", "assert_ne": "!="}
-CLAUSE_KW = ("tags", "requires", "ensures", "decreases", "loop", "hint", "replace", "opt",
+CLAUSE_KW = ("sigreplace", "tags", "requires", "ensures", "decreases", "loop", "hint", "replace", "opt",
              "returns", "opens_invariants", "no_unwind", "recommends", "attr", "cut", "note")
 
 
@@ -191,23 +191,27 @@ class Rewriter:
                 return text[:start] + fn + text[end:]
             if name in ASSERT1:
                 parts = split_top_commas(inner)
-                if name == "assert" and len(parts) == 1:
+                if name == "assert" and len(parts) == 1 and self.fatal_mode != "S":
                     continue  # already in final form
                 self.bump("R4")
+                if self.fatal_mode == "S":
+                    return text[:start] + "if !(" + _text(parts[0]).strip() + ") { verif_abort() }" + text[end:]
                 return text[:start] + "assert!(" + _text(parts[0]).strip() + ")" + text[end:]
             if name in ASSERT2:
                 parts = split_top_commas(inner)
                 self.bump("R4")
-                return (text[:start] + "assert!((" + _text(parts[0]).strip() + ") " + ASSERT2[name] + " (" +
-                        _text(parts[1]).strip() + "))" + text[end:])
+                cond = "(" + _text(parts[0]).strip() + ") " + ASSERT2[name] + " (" + _text(parts[1]).strip() + ")"
+                if self.fatal_mode == "S":
+                    return text[:start] + "if !(" + cond + ") { verif_abort() }" + text[end:]
+                return text[:start] + "assert!(" + cond + ")" + text[end:]
             if name == "panic":
                 if not inner and False:
                     continue
                 self.bump("R3")
-                return text[:start] + "verif_panic()" + text[end:]
+                return text[:start] + ("verif_abort()" if self.fatal_mode == "S" else "verif_panic()") + text[end:]
             if name in ("unreachable", "unimplemented", "todo"):
                 self.bump("R3")
-                return text[:start] + "verif_panic()" + text[end:]
+                return text[:start] + ("verif_abort()" if self.fatal_mode == "S" else "verif_panic()") + text[end:]
         return None
 
     def _combinator(self, toks, text, sidx, n):
@@ -253,6 +257,7 @@ class FnDirective:
         self.loops = {}           # ordinal -> list of (kind, id, text)
         self.hints = []           # (where, anchor, nth, code)
         self.replaces = []        # (pattern, nth, replacement, label)
+        self.sigreplaces = []
         self.tags = []
         self.notes = []
         self.lineno = lineno
@@ -310,7 +315,11 @@ def parse_fn_block(lines, qual, opts, lineno, template):
             cid = None
             if m:
                 cid, text = m.group(1), text[m.end():]
-            d.clauses.append((word, cid, text))
+            mode = None
+            mm = re.match(r"\{([PS])\}\s*", text)
+            if mm:
+                mode, text = mm.group(1), text[mm.end():]
+            d.clauses.append((word, cid, text, mode))
         elif word == "loop":
             m = re.match(r"(\d+)\s+(invariant_except_break|invariant|ensures|decreases)\s*(.*)$", text, re.S)
             if not m:
@@ -336,7 +345,7 @@ def parse_fn_block(lines, qual, opts, lineno, template):
             if not rest.startswith("::"):
                 raise ValueError("%s:%d: hint needs `::` before code" % (template, lineno))
             d.hints.append((where, anchor, nth, rest[2:].strip()))
-        elif word in ("replace", "cut"):
+        elif word in ("replace", "cut", "sigreplace"):
             m = re.match(r"(#\d+)?\s*", text)
             nth = int(m.group(1)[1:]) if m.group(1) else None
             pat, rest = _parse_quoted(text[m.end():])
@@ -353,7 +362,10 @@ def parse_fn_block(lines, qual, opts, lineno, template):
                     rep, rest = rep.rsplit(" :: ", 1)
                     rest = ":: " + rest
             label = rest.strip().lstrip(":").strip()
-            d.replaces.append((pat, nth, rep, label, word))
+            if word == "sigreplace":
+                d.sigreplaces.append((pat, nth, rep, label, word))
+            else:
+                d.replaces.append((pat, nth, rep, label, word))
         elif word == "opt":
             for kv in text.split():
                 k, _, v = kv.partition("=")
@@ -416,6 +428,10 @@ class Gen:
                     self.emit_type(word, d, path, i + 1)
                 elif word == "const":
                     self.emit_const(d, path, i + 1)
+                elif word == "expect-variants":
+                    self.expect_variants(d)
+                elif word == "expect-fields":
+                    self.expect_fields(d)
                 elif word == "fn":
                     block = []
                     j = i + 1
@@ -469,11 +485,56 @@ class Gen:
         text = src[it.hdr_start:it.end]
         # drop attributes / doc comments inside the definition (field attrs such as #[get = ..])
         text = strip_inner_attrs(text)
+        text = re.sub(r"\bpub\s*\(\s*(crate|super)\s*\)", "pub", text)  # R7: visibility widened, no semantics
         if extra:
             self.emit(extra)
         a, b = self.emit(text)
         self.map.append({"kind": "type", "name": name, "lines": [a, b], "source": self.cur_source,
                          "src_line": src.count("\n", 0, it.hdr_start) + 1})
+
+    def _members(self, kind, name):
+        src, toks = self.source(self.cur_source)
+        it = rustlex.find_item(src, kind, name, toks=toks)
+        if it is None or it.body_open is None:
+            raise AnchorLost("%s %s not found in %s" % (kind, name, self.cur_source))
+        inner = tokenize(src[it.body_open + 1:it.body_close])
+        names = []
+        for part in split_top_commas(inner):
+            sig_ = [t for t in part if t.kind not in ("ws", "comment")]
+            k = 0
+            while k < len(sig_) and sig_[k].text == "#":
+                # skip attribute
+                depth = 0
+                k += 1
+                while k < len(sig_):
+                    if sig_[k].text == "[":
+                        depth += 1
+                    elif sig_[k].text == "]":
+                        depth -= 1
+                        if depth == 0:
+                            k += 1
+                            break
+                    k += 1
+            while k < len(sig_) and sig_[k].text in ("pub", "crate") or (k < len(sig_) and sig_[k].text == "("):
+                if sig_[k].text == "(":
+                    while sig_[k].text != ")":
+                        k += 1
+                k += 1
+            if k < len(sig_) and sig_[k].kind == "ident":
+                names.append(sig_[k].text)
+        return names
+
+    def expect_variants(self, d):
+        parts = d.split()
+        got = self._members("enum", parts[1])
+        if got != parts[2:]:
+            raise AnchorLost("enum %s in %s has variants %s, the hand-written stub expects %s" % (parts[1], self.cur_source, got, parts[2:]))
+
+    def expect_fields(self, d):
+        parts = d.split()
+        got = self._members("struct", parts[1])
+        if got != parts[2:]:
+            raise AnchorLost("struct %s in %s has fields %s, the hand-written stub expects %s" % (parts[1], self.cur_source, got, parts[2:]))
 
     def emit_const(self, d, path, lineno):
         name = d.split()[1]
@@ -506,6 +567,8 @@ class Gen:
         sig_text = src[it.hdr_start:it.body_open].rstrip()
         body_text = src[it.body_open:it.body_close + 1]
         emit_name = fd.opts.get("as", name)
+        for (pat, nth, rep, label, word) in fd.sigreplaces:
+            sig_text = self.apply_replace(sig_text, pat, nth, rep, fd, label, word)
         contract_only = ("ext" in fd.opts) or (self.body_modules is not None and self.cur_module not in self.body_modules)
         if self.only_fns is not None and (self.cur_module + "::" + fd.qual) not in self.only_fns and not contract_only:
             contract_only = True
@@ -533,7 +596,9 @@ class Gen:
         a, _ = self.emit(sig_text)
         rec["sig_line"] = a
         order = ["requires", "recommends", "ensures", "returns", "opens_invariants", "no_unwind", "decreases"]
-        clauses = list(fd.clauses)
+        fatal_mode = fd.opts.get("fatal", self.fatal_mode)
+        fatal_mode = {"abort": "S", "unreachable": "P"}.get(fatal_mode, fatal_mode)
+        clauses = [c[:3] for c in fd.clauses if c[3] is None or c[3] == fatal_mode]
         if getattr(fd, "_is_twin", False):
             clauses.append(("ensures", "TWIN", "false"))
             rec["twin_of"] = self.cur_module + "::" + fd.qual
